@@ -693,6 +693,7 @@ func checkC09Payload(c *Ctx) {
 	// with one loses every message of that size
 	scannersBounded(c, c.P.LibFns, "R-scanner-bounded")
 	c09FrameAtomic(c, "R-frame-atomic")
+	timerCallbacksDoNotWrite(c, "R-timer-writes")
 	// (a) fmt.Fprintf(w, "...data: %s...", payload): payload must come from json.Marshal
 	// (b) functions that write a payload followed by "\n" to an io.Writer param (stdio line writer): payload from json.Marshal
 	for _, fn := range c.P.LibFns {
